@@ -219,6 +219,9 @@ class Explorer:
         if cond is True or (not isinstance(cond, bool) and z3.is_true(z3.simplify(cond))):
             self.obligations.append(Obligation(label, "proved", self.n_paths, 0.0, "simplify", site=site))
             return
+        if cond is not False and self._check_conjuncts(cond):
+            self.obligations.append(Obligation(label, "proved", self.n_paths, time.time() - t0, "z3", site=site))
+            return
         neg = z3.BoolVal(True) if cond is False else z3.Not(cond)
         # need the full pc on the solver even when replaying: it is (levels are kept)
         self.solver.push()
@@ -254,6 +257,33 @@ class Explorer:
         if st == "failed" and self.on_fail is not None and self.on_fail(ob):
             self.stop = True
             raise PathAbort("stop: counterexample reproduced")
+
+    def _check_conjuncts(self, cond):
+        """pc => (c1 and ... and cn) holds iff pc => ci holds for every i: a large conjunction (the
+        equality of two structures, say) is discharged conjunct by conjunct, each a small query.
+        True only when every conjunct is proved; anything else falls back to the single query,
+        which also yields the counter-model."""
+        parts, todo = [], [cond]
+        while todo:
+            c = todo.pop()
+            if z3.is_and(c):
+                todo.extend(c.children())
+            else:
+                parts.append(c)
+        if len(parts) < 3:
+            return False
+        for c in parts:
+            if z3.is_true(z3.simplify(c)):
+                continue
+            self.solver.push()
+            try:
+                self.solver.add(z3.Not(c))
+                r = self._query(ms=self.check_ms)
+            finally:
+                self.solver.pop()
+            if r != z3.unsat:
+                return False
+        return True
 
     def cover(self, label):
         """Reachability witness: this program point was reached on a feasible path."""
